@@ -41,6 +41,32 @@ def check_C07(tier, seed, res, replay=None):
     pick = [c for c in cases if nontrivial_pair(c)]
     rng.shuffle(pick)
     cli_arm.judge(res, rd, "c07", cli_arm.bddincl_events(pick[:4000 if tier == "thorough" else 800], rd), "TraceTA.tla")
+    # agreement arm: driver-generated pairs (half of them nearly included), every implemented BDD selection incl. the attached-
+    # simulation recipe; pairs whose verdicts differ are re-run as ordinary bddincl cases and judged by TLC
+    nb, per = (640, 5000) if tier == "thorough" else (48, 4000)
+    batches = [{"id": ["bddinclagree", i], "op": "bddinclagree", "seed": seed * 6271 + i, "count": per, "tmo": 900000} for i in range(nb)]
+    cf = os.path.join(rd, "agree.cases.ndjson")
+    vlib.write_ndjson(cf, batches)
+    again, broken, pairs, noninc = [], [], 0, 0
+    for sh in vlib.drive(cf, os.path.join(rd, "agree.ev"), timeout_ms=900000):
+        for ev in vlib.read_ndjson(sh):
+            if ev.get("outcome") != "ok":       # a crash / hang inside a batch is reported as it is (TraceTA: outcome # ok)
+                broken.append(dict(ev, op="bddincl", A={"fin": [], "rules": []}, B={"fin": [], "rules": []}))
+                continue
+            pairs += ev["res"]["count"]
+            noninc += ev["res"]["nonincluded"]
+            again += ev["res"]["disagree"]
+    res.extra["agreement_arm_pairs"] = pairs
+    res.extra["agreement_arm_nonincluded_pairs"] = noninc
+    res.extra["agreement_arm_disagreeing_pairs"] = len(again)
+    if again:
+        run_events(res, rd, "agree2", again[:200], timeout_ms=10000)
+    if broken:
+        bf = os.path.join(rd, "agree.broken.0.ndjson")
+        vlib.write_ndjson(bf, broken)
+        vb = vlib.tlc_validate("TraceTA.tla", [bf])
+        res.add_validation(vb)
+        res.report_fails(vb["fails"], os.path.join(vlib.OUT, "viol"))
 
 
 # ------------------------------------------------------------------------------------- C08
@@ -117,11 +143,11 @@ def gen_bdd_history(rng, nsteps, enc):
                     sts[d] = sts[h] | sts[g]
                 else:
                     sts[d] = None
-                steps.append([kind, d, h, g])
+                steps.append([kind, d, h, g] + ([True] if kind in ("union", "isect") and rng.random() < 0.3 else []))   # True: with the optional out-maps
                 fam[d] = fam.get(h)
                 live[d] = live[h] + live[g] if kind != "isect" else live[h] * live[g]
             else:
-                steps.append([kind, d, h])
+                steps.append([kind, d, h] + ([True] if kind == "unreach" and rng.random() < 0.4 else []))   # True: with the optional out-set
                 live[d] = live[h]
                 sts[d] = None
                 fam[d] = fam.get(h)
